@@ -91,3 +91,41 @@ Definition check_module (c : mcase) : N :=
   | MPanic, 2 => 0
   | MOk _, _ => 1 | MErr, _ => 2 | MPanic, _ => 3
   end.
+
+(* ---------------------------------------------------------------- function replacement edits (C18) *)
+From WV Require Import Model.Builder Model.Edit.
+
+Record ecase := {
+  ec_cf : config; ec_ver : str; ec_in : wmod;
+  ec_kind : N;                 (* 1 = replace_imported_func, 2 = replace_exported_func *)
+  ec_func : N;                 (* function INDEX in the input *)
+  ec_use_args : bool;          (* the body first reads every argument local *)
+  ec_prog : list bop;          (* the rest of the replacement body *)
+  ec_obs : N;                  (* 0 = emitted [ec_out]; 1 = the edit returned an error; 2 = panic *)
+  ec_out : list wsec }.
+
+Definition edit_body (use_args : bool) (prog : list bop) (args : list N) : list bop :=
+  (if use_args then flat_map (fun a => [BInstr (IPlain (P_LocalGet a)); BInstr (IPlain P_Drop)]) args else []) ++ prog.
+
+Definition check_edit (c : ecase) : N :=
+  match parseM (ec_cf c) (ec_ver c) (ec_in c) with
+  | POk s =>
+      match nth_N (ii_funcs (ps_ids s)) (ec_func c) with
+      | None => 9
+      | Some fid =>
+          let r := match ec_kind c with
+                   | 1 => replace_imported_func (ps_m s) fid (edit_body (ec_use_args c) (ec_prog c))
+                   | _ => match replace_exported_func (ps_m s) fid (edit_body (ec_use_args c) (ec_prog c)) with
+                          | POk p => POk (fst p) | PErr => PErr | PPanic => PPanic end
+                   end in
+          match r, ec_obs c with
+          | POk m, 0 => match emitM m ilen1 [] with
+                        | Ok e => match first_sec_diff 0 (em_secs e) (ec_out c) with 0 => 0 | k => 100 + k end
+                        | _ => 3 end
+          | PErr, 1 => 0
+          | PPanic, 2 => 0
+          | POk _, _ => 1 | PErr, _ => 2 | PPanic, _ => 4
+          end
+      end
+  | _ => 8
+  end.
